@@ -419,6 +419,56 @@ def nested_refs(seed):
     return out
 
 
+# ---- binary types under every wrapper chain of length <= 3, through the codec entry points (bytes-like T is carried verbatim)
+def _bytes_chain_child(_job):
+    import itertools
+    import typing
+    import warnings
+    warnings.simplefilter("ignore")
+    import typelib
+    bad = []
+
+    def obs(t):
+        out = {}
+        for label, f in (("codec.encode", lambda: typelib.codec(t).encode(b'"ab"')), ("codec.decode", lambda: typelib.codec(t).decode(b'"ab"')),
+                         ("encode", lambda: typelib.encode(b"[1, 2]", t=t)), ("decode", lambda: typelib.decode(t, b"[1, 2]")),
+                         ("marshal", lambda: typelib.marshal(b"ab", t=t)), ("unmarshal", lambda: typelib.unmarshal(t, b"ab")),
+                         ("unmarshal-str", lambda: typelib.unmarshal(t, "ab"))):
+            try:
+                r = f()
+                out[label] = ["ok", type(r).__name__, bytes(r) if isinstance(r, (bytes, bytearray, memoryview)) else repr(r)]
+            except Exception as e:  # noqa: BLE001
+                out[label] = ["raised", type(e).__name__]
+        return out
+    n = 0
+    for base in (bytes, bytearray):
+        plain = obs(base)
+        for k in (1, 2, 3):
+            for chain in itertools.product("NA", repeat=k):
+                t = base
+                for i, w in enumerate(reversed(chain)):
+                    t = typing.NewType(f"N{i}", t) if w == "N" else typing.TypeAliasType(f"A{i}", t)
+                got = obs(t)
+                n += 1
+                if got != plain:
+                    diff = {k_: (got[k_], plain[k_]) for k_ in got if got[k_] != plain[k_]}
+                    bad.append(["".join(chain) + " over " + base.__name__, repr(diff)[:300]])
+    return {"bad": bad, "n": n}
+
+
+def bytes_chain_probe(res):
+    from .. import iso
+    o = iso.map_isolated(_bytes_chain_child, [None], timeout=120.0)[0]
+    if not isinstance(o, dict) or "bad" not in o:
+        raise RuntimeError(f"harness: bytes chain probe failed: {o}")
+    res.case({"family": "wrapper-chains-over-binary-types"}, True)
+    for chain, diff in o["bad"]:
+        res.failures.append({"what": f"wrapper chain {chain} is not transparent for the codec entry points: (wrapped, plain) = {diff}",
+                             "input": {"bytes_chain": chain}})
+    if not o["bad"]:
+        res.count("oracle:binary-wrapper-chains-transparent", o["n"])
+
+
 def explore(ctx):
     res = Result()
     res.rule = RULE
@@ -487,6 +537,7 @@ def explore(ctx):
                                      "input": {"reference": o["label"], "seed": ctx.seed}})
             else:
                 res.count("oracle:reference-ok")
+    bytes_chain_probe(res)
     return res
 
 
@@ -495,6 +546,11 @@ def witness(fid):
 
 
 def replay(failure):
+    if "bytes_chain" in failure.get("input", {}):
+        from .. import iso
+        o = iso.map_isolated(_bytes_chain_child, [None], timeout=120.0)[0]
+        print(json.dumps(o, indent=1, default=str)[:3000])
+        return bool(o.get("bad")) if isinstance(o, dict) else True
     inp = failure["input"]
     if "reference" in inp:
         core.import_typelib()
